@@ -793,8 +793,177 @@ theorem coop_success (c : Board.Case) (h : WfCase c) (hco : Coop c) : (Board.run
       dsimp only
       exact lnxUp_ok l b2 o2 hps2 hcon2 hok2 hlnx2
 
-/-- … and the trace is one the monitor accepts, ending in the login-complete (or U-Boot-ready)
-    state: every write the protocol calls for was made, each at the moment its prompt was complete -/
+/-! ### `coopB` decides cooperativeness -/
+
+theorem outTotal_eq (o : Out) : outTotal o = total o := rfl
+theorem outBytes_eq (o : Out) : outBytes o = outText o := rfl
+
+theorem endsB_sound {test : Bytes → Bool} {o : Out} (h : endsB test o = true) : Answers test o := by
+  unfold endsB at h
+  simp only [Bool.and_eq_true, Bool.not_eq_true', List.all_eq_true, List.mem_range, Bool.or_eq_true, beq_iff_eq,
+    outBytes_eq] at h
+  obtain ⟨⟨h1, h2⟩, h3⟩ := h
+  refine ⟨fun h0 => by rw [h0] at h1; simp at h1, h2, fun k hk hlt => ?_⟩
+  rcases h3 k hlt with h | h
+  · omega
+  · exact h
+
+theorem fitsB_sound {d : Nat} {t : Option Nat} (h : fitsB d t = true) : fits d t := by
+  cases t with
+  | none => trivial
+  | some r =>
+    have : d < r := by simpa [fitsB] using h
+    exact this
+
+theorem afterB_eq (d : Nat) (t : Option Nat) : afterB d t = after d t := rfl
+
+theorem coopPwB_sound {l : LnxCfg} {stages : List Stage} {budget : Option Nat} (h : coopPwB l stages budget = true) :
+    CoopPw l stages budget := by
+  unfold coopPwB at h
+  unfold CoopPw
+  cases hp : l.password with
+  | none => trivial
+  | some pw =>
+    rw [hp] at h
+    dsimp only at h ⊢
+    cases stages with
+    | nil => simp at h
+    | cons s rest =>
+      simp only [Bool.and_eq_true, outTotal_eq] at h
+      exact ⟨s, rest, rfl, h.1.1.1, endsB_sound h.1.1.2, fitsB_sound h.1.2, fitsB_sound h.2⟩
+
+theorem coopLoginB_sound {l : LnxCfg} {o : Out} {stages : List Stage} {budget : Option Nat}
+    (h : coopLoginB l o stages budget = true) : CoopLogin l o stages budget := by
+  unfold coopLoginB at h
+  unfold CoopLogin
+  simp only [Bool.and_eq_true, outTotal_eq, afterB_eq] at h
+  obtain ⟨⟨h1, h2⟩, h3⟩ := h
+  refine ⟨endsB_sound h1, fitsB_sound h2, ?_⟩
+  by_cases hd : l.delay = 0
+  · rw [if_pos hd] at h3 ⊢
+    exact coopPwB_sound h3
+  · rw [if_neg hd] at h3 ⊢
+    simp only [Bool.and_eq_true] at h3
+    obtain ⟨h4, h5⟩ := h3
+    cases stages with
+    | nil => simp at h5
+    | cons s rest =>
+      simp only [Bool.and_eq_true] at h5
+      exact ⟨fitsB_sound h4, s, rest, rfl, h5.1.1.1, endsB_sound h5.1.1.2, fitsB_sound h5.1.2, coopPwB_sound h5.2⟩
+
+theorem coopLnxB_sound {l : LnxCfg} {o : Out} {stages : List Stage} (h : coopLnxB l o stages = true) :
+    CoopLnx l o stages := by
+  unfold coopLnxB at h
+  unfold CoopLnx
+  cases ha : l.askfirst with
+  | none => rw [ha] at h; exact coopLoginB_sound h
+  | some banner =>
+    rw [ha] at h
+    dsimp only at h ⊢
+    simp only [Bool.and_eq_true, outTotal_eq, afterB_eq] at h
+    obtain ⟨⟨h1, h2⟩, h3⟩ := h
+    cases stages with
+    | nil => simp at h3
+    | cons s rest =>
+      simp only [Bool.and_eq_true] at h3
+      exact ⟨endsB_sound h1, fitsB_sound h2, s, rest, rfl, h3.1, coopLoginB_sound h3.2⟩
+
+theorem coopUbB_sound {u : UbCfg} {init : Out} {stages : List Stage} {kb : List Stage → Bool} {k : List Stage → Prop}
+    (hk : ∀ st, kb st = true → k st) (h : coopUbB u init stages kb = true) : CoopUb u init stages k := by
+  unfold coopUbB at h
+  unfold CoopUb
+  cases ha : u.autoboot with
+  | none =>
+    rw [ha] at h
+    simp only [Bool.and_eq_true, outTotal_eq] at h
+    exact ⟨endsB_sound h.1.1, of_decide_eq_true h.1.2, hk _ h.2⟩
+  | some p =>
+    rw [ha] at h
+    dsimp only at h ⊢
+    simp only [Bool.and_eq_true, outTotal_eq] at h
+    obtain ⟨⟨h1, h2⟩, h3⟩ := h
+    cases stages with
+    | nil => simp at h3
+    | cons s rest =>
+      simp only [Bool.and_eq_true, outTotal_eq] at h3
+      exact ⟨endsB_sound h1, fitsB_sound h2, s, rest, rfl, h3.1.1.1, endsB_sound h3.1.1.2, of_decide_eq_true h3.1.2, hk _ h3.2⟩
+
+theorem splitEcho_sound : ∀ (o : Out) (n : Nat) (eo o2 : Out), splitEcho n o = some (eo, o2) →
+    o = eo ++ o2 ∧ (outText eo).length = n := by
+  intro o
+  induction o with
+  | nil =>
+    intro n eo o2 h
+    cases n with
+    | zero =>
+      simp only [splitEcho, Option.some.injEq, Prod.mk.injEq] at h
+      obtain ⟨rfl, rfl⟩ := h
+      exact ⟨rfl, rfl⟩
+    | succ n => simp [splitEcho] at h
+  | cons p r ih =>
+    intro n eo o2 h
+    obtain ⟨dt, d⟩ := p
+    cases n with
+    | zero =>
+      simp only [splitEcho, Option.some.injEq, Prod.mk.injEq] at h
+      obtain ⟨rfl, rfl⟩ := h
+      exact ⟨rfl, rfl⟩
+    | succ n =>
+      simp only [splitEcho] at h
+      split at h
+      · rename_i hle
+        cases hs : splitEcho (n + 1 - d.length) r with
+        | none => rw [hs] at h; simp at h
+        | some x =>
+          rw [hs] at h
+          simp only [Option.map_some, Option.some.injEq, Prod.mk.injEq] at h
+          obtain ⟨rfl, rfl⟩ := h
+          obtain ⟨h1, h2⟩ := ih (n + 1 - d.length) x.1 x.2 (by rw [hs])
+          refine ⟨by rw [h1]; rfl, ?_⟩
+          simp only [outText, List.map_cons, List.flatten_cons, List.length_append] at h2 ⊢
+          omega
+      · simp at h
+
+theorem coopBootB_sound {l : LnxCfg} {stages : List Stage} (h : coopBootB l stages = true) : CoopBoot l stages := by
+  unfold coopBootB at h
+  cases stages with
+  | nil => simp at h
+  | cons s rest =>
+    simp only [Bool.and_eq_true] at h
+    obtain ⟨h1, h2⟩ := h
+    cases hs : splitEcho (bootLine.length + countNl bootLine) s.out with
+    | none => rw [hs] at h2; simp at h2
+    | some x =>
+      rw [hs] at h2
+      obtain ⟨eo, o2⟩ := x
+      obtain ⟨h3, h4⟩ := splitEcho_sound s.out _ eo o2 hs
+      exact ⟨s, rest, eo, o2, rfl, h1, h3, h4, coopLnxB_sound h2⟩
+
+/-- `coopB` is sound for `Coop` -/
+theorem coopB_sound (c : Board.Case) (h : coopB c = true) : Coop c := by
+  unfold coopB at h
+  unfold Coop
+  cases hub : c.ub with
+  | none =>
+    cases hlnx : c.lnx with
+    | none => rw [hub, hlnx] at h; simp at h
+    | some l => rw [hub, hlnx] at h; exact coopLnxB_sound h
+  | some u =>
+    cases hlnx : c.lnx with
+    | none => rw [hub, hlnx] at h; exact coopUbB_sound (fun _ _ => trivial) h
+    | some l => rw [hub, hlnx] at h; exact coopUbB_sound (fun _ hk => coopBootB_sound hk) h
+
+/-- **C18 for the model**: for every well-formed configuration and every console the monitor
+    accepts the observation, and if the console is cooperative bring-up returned normally -/
+theorem run_spec (c : Board.Case) (h : WfCase c) : Spec.C18 c (Board.run c) = true := by
+  unfold Spec.C18
+  rw [run_monitor c h, Bool.true_and]
+  cases hc : coopB c with
+  | false => rfl
+  | true =>
+    rw [coop_success c h (coopB_sound c hc)]
+    rfl
+
 theorem coop_spec (c : Board.Case) (h : WfCase c) (hco : Coop c) :
     Spec.C18 c (Board.run c) = true ∧ (Board.run c).res = none :=
   ⟨run_spec c h, coop_success c h hco⟩
